@@ -298,6 +298,8 @@ def array_method(it, base, m, e, env, argv, kw):
         return it.matmul(base, argv[0], e) if argv else unk()
     if m == "fill":
         return V("none")
+    if base.is_numlike and base.wild and base.sh is None:
+        return wild(None)  # a method of a polymorphic library object (e.g. RandomState(seed).normal(...))
     return unk(f"array method {m}")
 
 
